@@ -1773,6 +1773,22 @@ class Exec:
             ta = self.heap[a.t.id] if a.k == "arr" else None
             tb = self.heap[b.t.id] if b.k == "arr" else None
             return self.mk_bool(ta == tb)
+        if fn == "rowsum":
+            # rowsum(A, a): sum of row a of the 2-d integer array A over its full width.  The only
+            # property used is the point-update lemma (M2, trusted / Lean): for 0 <= j < n
+            #   rsum(Store(r, j, v), n) = rsum(r, n) - r[j] + v
+            v = self.ev(n.args[0])
+            a = self.to_int(self.ev(n.args[1]))
+            arr = v.t
+            rs = z3.Function("rsum", z3.ArraySort(I, I), I, I)
+            if ("lemma", "rsum") not in self.labels:
+                self.labels[("lemma", "rsum")] = True
+                r = z3.Const("rs_r", z3.ArraySort(I, I))
+                j, vv, nn = z3.Ints("rs_j rs_v rs_n")
+                self.facts.append(z3.ForAll([r, j, vv, nn], z3.Implies(
+                    z3.And(j >= 0, j < nn), rs(z3.Store(r, j, vv), nn) == rs(r, nn) - z3.Select(r, j) + vv),
+                    patterns=[rs(z3.Store(r, j, vv), nn)]))
+            return self.mk_int(rs(z3.Select(self.heap[arr.id], a), arr.shape[1]))
         if fn == "isnan":
             v = self.ev(n.args[0])
             return self.mk_bool(self.nanof(v))
@@ -1897,7 +1913,7 @@ _orig_ev_call = Exec.ev_Call
 
 def _ev_call_with_spec(self, n):
     fn = self.fname(n.func)
-    if fn is not None and (self.spec_mode or fn in ("shape", "extent", "old", "implies", "iff", "ite", "contiguous", "real", "isnan")):
+    if fn is not None and (self.spec_mode or fn in ("shape", "extent", "old", "implies", "iff", "ite", "contiguous", "real", "isnan", "rowsum")):
         r = self.spec_call(fn, n)
         if r is not None:
             return r
@@ -1975,6 +1991,11 @@ def _expand(e, dom, cache):
         body = e.body()
         sorts = [e.var_sort(i) for i in range(nv)]
         if not all(s == I for s in sorts):
+            if "rsum" in e.sexpr():
+                # the point-update lemma of rowsum: within a finite scope rowsum is replaced by its
+                # definition (finite sum), of which the lemma is a consequence
+                cache[key] = z3.BoolVal(True)
+                return cache[key]
             # quantifier over floats (axioms): leave it
             cache[key] = e
             return e
@@ -1990,6 +2011,10 @@ def _expand(e, dom, cache):
         return r
     if z3.is_app(e) and e.num_args() > 0:
         args = [_expand(a, dom, cache) for a in e.children()]
+        if e.decl().name() == "rsum":
+            r = z3.Sum(*[z3.If(z3.And(q >= 0, q < args[1]), z3.Select(args[0], q), 0) for q in range(0, max(dom) + 1)])
+            cache[key] = r
+            return r
         r = e.decl()(*args)
         cache[key] = r
         return r
